@@ -477,7 +477,7 @@ def correspondence(ctx, inputs, pool):
     jobs = []
     for i, (a, b, kind) in enumerate(inputs):
         for rep in (False, True):
-            for cs, tune in ((1, 0), (2, 0), (7, 0), (5000, 0), (2, 1), (7, 2), (3, 10)):
+            for cs, tune in (((1, 0), (2, 0), (7, 0), (5000, 0), (2, 1), (7, 2), (3, 10)) if ctx.thorough else ((1, 0), (7, 0), (5000, 0), (2, 1), (7, 2))):
                 jobs.append((repr(a), repr(b), rep, cs, tune))
     res = pool.map(_trace_task, jobs, chunksize=2)
     cases, ccases = [], []
@@ -595,15 +595,15 @@ def threaded(ctx, rounds, nthreads, ntasks):
 def run(ctx):
     rng = ctx.rng
     sys.setrecursionlimit(10000)
-    n_pl = 40 if ctx.thorough else 8
-    n_ot = 60 if ctx.thorough else 10
+    n_pl = 40 if ctx.thorough else 6
+    n_ot = 60 if ctx.thorough else 8
     inputs = gen_inputs(rng, n_pl, n_ot)
     replay_witnesses(ctx)
     inputs.append(K17_WITNESS + ("k17-witness",))
     for a, b, kind in inputs[:2] + inputs[n_pl:n_pl + 1]:
         ctx.sample({"t1": repr(a)[:400], "t2": repr(b)[:400], "shape": kind})
     with mp.get_context("fork").Pool(core.NCPU) as pool:
-        correspondence(ctx, inputs[: (n_pl + 10 if ctx.thorough else n_pl + 3)], pool)
+        correspondence(ctx, inputs[: (n_pl + 10 if ctx.thorough else n_pl + 2)] + [inputs[-1]], pool)
         oracle_grid(ctx, inputs, pool, full=ctx.thorough)
     threaded(ctx, 6 if ctx.thorough else 2, 12, 96 if ctx.thorough else 48)
 
